@@ -8,9 +8,11 @@ CONSTANTS
   HasCache = FALSE
   CachePutBeforeDbWrite = FALSE
   BulkVersionsUsesEpoch = TRUE
+  FillPolicy = "if_same_generation"
   Export = FALSE
   MaxSteps = 4
   WithReads = FALSE
+  SplitReads = FALSE
 INIT MCInit
 NEXT MCNext
 VIEW View
